@@ -12,7 +12,8 @@ RULE = ("Cases = 1-D arrays of length >= 1 over bool / int8..uint64 / float16/32
         "len/size/shape; starts/ends/values equal the run structure of a; validity predicate (boundaries start at 0, strictly "
         "increase, end at the dense length; no adjacent equal runs for encoding, stepped slices and rl-rl ufuncs) on every "
         "RunLengthArray returned by encoding, slicing, ufuncs, concatenation and mask selection.  Non-trivial = at least two "
-        "runs and a dtype other than int64.")
+        "runs and a dtype other than int64."
+        "  The array handed to from_array is overwritten by the caller after encoding, decoded arrays after reading; rl-rl ufuncs also on two operands derived from the same encoded array.")
 ASSUMPTIONS = ["'equal values' for canonical form means ==; adjacent NaN runs are therefore allowed",
                "encoding merges -0.0 with 0.0 (they compare equal); decoded arrays are compared with =="]
 
